@@ -10,7 +10,7 @@ preorder numbers in the *unmutated* document, so a case `{file, faults}` is self
 Structural fault classes (all enumerated by `Doc.faults()`):
   el-delete, el-dup, el-empty, el-swap             at every element
   at-delete, at-empty, at-copy (from every other attribute of the same element), at-dict (dictionary per attribute
-  name: hit policies, aggregations, booleans, function kinds, generic junk)     at every attribute
+  name: hit policies, aggregations, booleans, function kinds, href shapes such as ":" and "##", generic junk)  at every attribute
   at-add (hitPolicy/aggregation on every decisionTable, isCollection on every item definition/component)
   tx-delete, tx-dict                                at every character-data node
   href-missing, href-self, href-ancestor, href-kind:<kind>   at every href attribute (every id-bearing DRG element and
